@@ -418,20 +418,39 @@ func (fc *FC) FieldAtExit(idx int, field string) *RF {
 	return nil
 }
 
-// Sub applies the equalities among the context's assumptions to r.
+// Sub applies the context's assumptions to r: equalities are substituted and
+// gating functions whose condition the assumptions decide are resolved (also
+// inside inlined helpers, where CFG pruning of this function cannot reach).
 func (fc *FC) Sub(r *RF) *RF {
+	return fc.X.SimplifyUnder(r, fc.Assume)
+}
+
+func (x *Extractor) SimplifyUnder(r *RF, assume []Assumption) *RF {
+	if len(assume) == 0 {
+		return r
+	}
 	m := map[AtomID]*RF{}
-	for _, a := range fc.Assume {
+	for _, a := range assume {
 		if a.Atom != nil {
 			if at := a.Atom.SingleAtom(); at != nil {
 				m[at.ID] = a.Val
 			}
 		}
 	}
-	if len(m) == 0 {
-		return r
+	if len(m) > 0 {
+		r = r.Subst(m)
 	}
-	return r.Subst(m)
+	return r.Rewrite(func(at *Atom, args []*RF) *RF {
+		if at.Name == "ite" && len(args) == 3 {
+			switch x.EvalCond(args[0], assume) {
+			case True:
+				return args[1]
+			case False:
+				return args[2]
+			}
+		}
+		return nil
+	})
 }
 
 // structFields lists the field names of the struct parameter idx points to.
@@ -449,4 +468,27 @@ func structFieldsOf(fn *ssa.Function, idx int) []string {
 		out = append(out, st.Field(i).Name())
 	}
 	return out
+}
+
+// Formula: result idx of fnName (under assumptions built by mk, may be nil) ≡ spec.
+func (b *B) Formula(rule, construct, fnName string, names []string, lets [][2]string, idx int, spec string, mk func(env *SpecEnv) []Assumption) {
+	fn := b.Fn(rule, fnName)
+	if fn == nil {
+		return
+	}
+	b.guard(rule, construct, func() {
+		env := b.X.EnvFor(fn, names...)
+		for _, l := range lets {
+			if err := env.Let(l[0], l[1]); err != nil {
+				panic(specErr(err.Error()))
+			}
+		}
+		var fc *FC
+		if mk != nil {
+			fc = b.X.Under(fn, mk(env)...)
+		} else {
+			fc = b.X.FCFor(fn)
+		}
+		b.Eq(rule, construct, b.pos(fn), fc.Sub(fc.RetVal(idx)), env, spec)
+	})
 }
